@@ -49,6 +49,9 @@ func (c16) Configure(r *e.RNG, tier string) e.Config {
 	c.Flags["w_liquid"] = r.Range(0, 3)
 	c.Flags["p_absent"] = r.Range(0, 40)
 	c.Flags["p_evidence"] = r.Range(0, 10)
+	// fees are zero, so staking rewards (and everything that pays them out as a
+	// side effect) exist only when coinomics mints
+	c.Coinomics = r.Chance(0.7)
 	return c
 }
 
